@@ -395,11 +395,23 @@ fn synth_streams(seed: u64) -> Vec<u8> {
         2 => d = d.add_stream(junk(ST::HandleDataStream)),
         _ => {}
     }
-    if draw(0) == 2 {
-        d = d.add_stream(junk(ST::MozMacosCrashInfoStream));
+    match draw(2) {
+        // a crash-info stream without records (header: stream type, record count 0, record start size, 20 empty locations)
+        1 => d = d.add_stream(synth::SimpleStream {
+            stream_type: ST::MozMacosCrashInfoStream as u32,
+            section: Section::with_endian(e).D32(ST::MozMacosCrashInfoStream as u32).D32(0).D32(0).append_repeated(0, 160),
+        }),
+        2 => d = d.add_stream(junk(ST::MozMacosCrashInfoStream)),
+        _ => {}
     }
-    if draw(0) == 2 {
-        d = d.add_stream(junk(ST::MozMacosBootargsStream));
+    match draw(2) {
+        // boot args whose string location is not a string (printed as empty)
+        1 => d = d.add_stream(synth::SimpleStream {
+            stream_type: ST::MozMacosBootargsStream as u32,
+            section: Section::with_endian(e).D32(ST::MozMacosBootargsStream as u32).D64(0),
+        }),
+        2 => d = d.add_stream(junk(ST::MozMacosBootargsStream)),
+        _ => {}
     }
     if draw(3) == 1 {
         d = d.add_stream(synth::SimpleStream {
